@@ -42,15 +42,55 @@ def trace_sha(res):
     return res.get("trace_digest") or _trace_digest(res.get("trace", ()))
 
 
+def _run(engine, ch):
+    """engines with isolate=True execute every run in a child forked from the (pristine) engine process, so that the
+    verdict of a run can never depend on state an earlier run of the same batch worker left behind"""
+    if not getattr(engine, "isolate", False):
+        return engine.run(ch)
+    import pickle
+    r, w = os.pipe()
+    pid = os.fork()
+    if pid == 0:
+        os.close(r)
+        try:
+            try:
+                data = pickle.dumps(("OK", engine.run(ch), list(ch.log)))
+            except HarnessError as e:
+                data = pickle.dumps(("HARNESS", str(e), None))
+            except BaseException as e:  # pylint: disable=broad-except
+                data = pickle.dumps(("HARNESS", "isolated run crashed: %r\n%s" % (e, traceback.format_exc()[-1500:]), None))
+            off = 0
+            while off < len(data):
+                off += os.write(w, data[off:off + 65536])
+        finally:
+            os._exit(0)
+    os.close(w)
+    chunks = []
+    while True:
+        b = os.read(r, 1 << 20)
+        if not b:
+            break
+        chunks.append(b)
+    os.close(r)
+    os.waitpid(pid, 0)
+    if not chunks:
+        raise HarnessError("isolated run died without an answer")
+    tag, res, log = pickle.loads(b"".join(chunks))
+    if tag != "OK":
+        raise HarnessError(res)
+    ch.log[:] = log
+    return res
+
+
 def run_seed(engine, seed):
     ch = Choices(seed)
-    res = engine.run(ch)
+    res = _run(engine, ch)
     return ch, res
 
 
 def run_choices(engine, choices):
     ch = Choices(recorded=choices)
-    res = engine.run(ch)
+    res = _run(engine, ch)
     return ch, res
 
 
